@@ -107,7 +107,7 @@ def check_c17(prop, tier, seed):
             big = p.endswith("wide_yaml.yaml") or p.endswith("big68_yaml.yaml")      # too large to explore exhaustively
             if small or (tier != "quick" and not big):
                 jobs.append(dict(src=("yaml_file", p), exhaustive=True, foreign=False, extras=False))
-            elif big or p.endswith("name_clash_yaml.yaml"):
+            elif (big and (tier != "quick" or p.endswith("wide_yaml.yaml"))) or p.endswith("name_clash_yaml.yaml"):
                 jobs.append(dict(src=("yaml_file", p), random_steps=500, seed=seed + 11, extras=False))
         for n in (["tiny", "medium-multi-site"] if tier == "quick" else fmt.corpus.YAML_BENCHMARKS):
             jobs.append(dict(src=("bench_yaml", n), random_steps=400 if tier == "quick" else 1500, seed=seed + 7))
